@@ -2140,3 +2140,466 @@ func rulePivotFixedDuringAlignment(r *Report, rule string) {
 		undecidedf("%s: alignment pass (flag cleared inside a counted loop over Compare with an outer pivot) not found", fi.Name)
 	}
 }
+
+// ruleParallelSlicesResetTogether (K14): local slices that are grown pairwise
+// (one append each in the same basic block) are parallel arrays; wherever one
+// of them is truncated (x = x[:0] / x = nil) all of them are, in the same basic
+// block.  Truncating only some leaves the others one batch longer and pairs
+// element j of one array with element j of an unrelated batch.
+func ruleParallelSlicesResetTogether(r *Report, rule string, pkgs ...string) {
+	p := r.P
+	n := 0
+	for _, pk := range pkgs {
+		for _, fi := range p.funcsInPkg(pk) {
+			if fi.Decl.Body == nil {
+				continue
+			}
+			info := fi.Pkg.TypesInfo
+			for _, bu := range bodiesOf(fi) {
+				// cheap pre-filter: at least two appends and one truncation
+				apps, truncs := 0, 0
+				inspectNoLit(bu.Body, func(x ast.Node) bool {
+					if as, ok := x.(*ast.AssignStmt); ok {
+						for i, rhs := range as.Rhs {
+							if c, ok := rhs.(*ast.CallExpr); ok && calleeBuiltin(info, c) == "append" {
+								apps++
+							}
+							if i < len(as.Lhs) && isTruncationOf(info, as.Lhs[i], rhs) {
+								truncs++
+							}
+						}
+					}
+					return true
+				})
+				if apps < 2 || truncs == 0 {
+					continue
+				}
+				g := buildCFG(info, bu.Body)
+				// groups: variables appended (single element) in the same block
+				blockApps := map[int32]map[types.Object]bool{}
+				blockTruncs := map[int32]map[types.Object]ast.Node{}
+				inspectNoLit(bu.Body, func(x ast.Node) bool {
+					as, ok := x.(*ast.AssignStmt)
+					if !ok {
+						return true
+					}
+					l, ok := g.Locate(as)
+					if !ok {
+						return true
+					}
+					for i, rhs := range as.Rhs {
+						if i >= len(as.Lhs) {
+							break
+						}
+						o := objOf(info, as.Lhs[i])
+						if o == nil || !(o.Pos() >= bu.Body.Pos() && o.Pos() <= bu.Body.End()) && bu.Lit == nil {
+							// only locals of this function (closures may use the enclosing function's locals)
+						}
+						if o == nil {
+							continue
+						}
+						if c, ok := rhs.(*ast.CallExpr); ok && calleeBuiltin(info, c) == "append" && len(c.Args) == 2 && !c.Ellipsis.IsValid() && objOf(info, c.Args[0]) == o {
+							if blockApps[l.B.Index] == nil {
+								blockApps[l.B.Index] = map[types.Object]bool{}
+							}
+							blockApps[l.B.Index][o] = true
+						}
+						if isTruncationOf(info, as.Lhs[i], rhs) {
+							if blockTruncs[l.B.Index] == nil {
+								blockTruncs[l.B.Index] = map[types.Object]ast.Node{}
+							}
+							blockTruncs[l.B.Index][o] = as
+						}
+					}
+					return true
+				})
+				// union-find-free grouping: each co-append block defines a group
+				var groups []map[types.Object]bool
+				for _, m := range blockApps {
+					if len(m) >= 2 {
+						groups = append(groups, m)
+					}
+				}
+				for _, grp := range groups {
+					for _, tr := range blockTruncs {
+						hit := false
+						var at ast.Node
+						for o, nd := range tr {
+							if grp[o] {
+								hit, at = true, nd
+							}
+						}
+						if !hit {
+							continue
+						}
+						var missing []string
+						var names []string
+						for o := range grp {
+							names = append(names, o.Name())
+							if _, ok := tr[o]; !ok {
+								missing = append(missing, o.Name())
+							}
+						}
+						sort.Strings(missing)
+						sort.Strings(names)
+						n++
+						r.Fn(fi)
+						r.Ob(rule, bu.Name+"/"+strings.Join(names, "+")+"-truncated-together", at.Pos(), len(missing) == 0,
+							"the slices "+strings.Join(names, ", ")+" are grown pairwise (parallel arrays) but here only some are truncated; "+strings.Join(missing, ", ")+" keeps the previous batch's elements, so position j of it no longer belongs to position j of the others")
+					}
+				}
+			}
+		}
+	}
+	if n < 1 {
+		undecidedf("parallel-slices rule matched no truncation of a co-appended group")
+	}
+}
+
+func isTruncationOf(info *types.Info, lhs, rhs ast.Expr) bool {
+	o := objOf(info, lhs)
+	if o == nil {
+		return false
+	}
+	if _, ok := o.Type().Underlying().(*types.Slice); !ok {
+		return false
+	}
+	rhs = ast.Unparen(rhs)
+	if isNilIdent(info, rhs) {
+		return true
+	}
+	if se, ok := rhs.(*ast.SliceExpr); ok && objOf(info, se.X) == o && se.High != nil {
+		if k, isC := intConst(info, se.High); isC && k == 0 {
+			return true
+		}
+	}
+	return false
+}
+
+// rulePooledObjectReset (K9b for object pools): objects of a pooled type are
+// handed out again by `acquire` after `release` put them back.  Every field
+// that the type's own cursor methods (`useMethods`) assign during use must be
+// assigned again in acquire or release, otherwise the next user starts from
+// the previous user's position.
+func rulePooledObjectReset(r *Report, rule, pkg, typeName string, useMethods []string, acquire, release string) {
+	p := r.P
+	mutated := map[string]token.Pos{}
+	for _, m := range useMethods {
+		fi := p.MustFunc(pkg + ".(*" + typeName + ")." + m)
+		r.Fn(fi)
+		info := fi.Pkg.TypesInfo
+		recv := recvObj(fi)
+		ast.Inspect(fi.Decl.Body, func(x ast.Node) bool {
+			var lhs []ast.Expr
+			switch s := x.(type) {
+			case *ast.AssignStmt:
+				lhs = s.Lhs
+			case *ast.IncDecStmt:
+				lhs = []ast.Expr{s.X}
+			}
+			for _, l := range lhs {
+				for {
+					l = ast.Unparen(l)
+					if ix, ok := l.(*ast.IndexExpr); ok {
+						l = ix.X
+						continue
+					}
+					break
+				}
+				if sel, ok := l.(*ast.SelectorExpr); ok && objOf(info, sel.X) == recv {
+					if v, ok := info.ObjectOf(sel.Sel).(*types.Var); ok && v.IsField() {
+						if _, seen := mutated[v.Name()]; !seen {
+							mutated[v.Name()] = sel.Pos()
+						}
+					}
+				}
+			}
+			return true
+		})
+	}
+	reset := map[string]bool{}
+	for _, fn := range []string{acquire, release} {
+		fi := p.MustFunc(fn)
+		r.Fn(fi)
+		info := fi.Pkg.TypesInfo
+		ast.Inspect(fi.Decl.Body, func(x ast.Node) bool {
+			as, ok := x.(*ast.AssignStmt)
+			if !ok {
+				return true
+			}
+			for _, l := range as.Lhs {
+				for {
+					l = ast.Unparen(l)
+					if ix, ok := l.(*ast.IndexExpr); ok {
+						l = ix.X
+						continue
+					}
+					break
+				}
+				if sel, ok := l.(*ast.SelectorExpr); ok {
+					if v, ok := info.ObjectOf(sel.Sel).(*types.Var); ok && v.IsField() {
+						if nt := namedOf(info.TypeOf(sel.X)); nt != nil && nt.Obj().Name() == typeName {
+							reset[v.Name()] = true
+						}
+					}
+				}
+			}
+			return true
+		})
+	}
+	if len(mutated) < 2 {
+		undecidedf("%s: fewer than 2 fields mutated by %v", typeName, useMethods)
+	}
+	var names []string
+	for f := range mutated {
+		names = append(names, f)
+	}
+	sort.Strings(names)
+	for _, f := range names {
+		r.Ob(rule, typeName+"."+f+"/re-initialised-between-uses", mutated[f], reset[f], "field "+f+" is advanced by "+strings.Join(useMethods, "/")+" while the object is in use, and objects of this type are handed out again from a pool ("+release+" -> "+acquire+"): it must be assigned in one of the two, otherwise the next user inherits the previous user's position (e.g. starts at the segment where the last search stopped)")
+	}
+}
+
+// ruleFirstCallFlagSiblings (K12): when Next() of a cursor type distinguishes
+// its first call by a nil field F (`if r.F != nil { step } else { r.F = ... }`),
+// F is the "already positioned" flag of the cursor.  Every sibling method that
+// positions the cursor itself (calls Seek on the same iterator) must leave F
+// non-nil on the path to the Seek, otherwise the Next() that follows does not
+// step and returns the same entry again.
+func ruleFirstCallFlagSiblings(r *Report, rule, pkg, typeName string) {
+	p := r.P
+	next := p.MustFunc(pkg + ".(*" + typeName + ").Next")
+	r.Fn(next)
+	info := next.Pkg.TypesInfo
+	recv := recvObj(next)
+	var flag *types.Var
+	ast.Inspect(next.Decl.Body, func(x ast.Node) bool {
+		is, ok := x.(*ast.IfStmt)
+		if !ok || is.Else == nil {
+			return true
+		}
+		e, isEq, isNil := nilTest(info, is.Cond)
+		if !isNil || isEq {
+			return true
+		}
+		sel, ok := ast.Unparen(e).(*ast.SelectorExpr)
+		if !ok || objOf(info, sel.X) != recv {
+			return true
+		}
+		fv, _ := info.ObjectOf(sel.Sel).(*types.Var)
+		// else branch assigns the same field
+		if eb, ok := is.Else.(*ast.BlockStmt); ok && fv != nil {
+			for _, st := range eb.List {
+				if as, ok := st.(*ast.AssignStmt); ok && len(as.Lhs) == 1 {
+					if s2, ok := ast.Unparen(as.Lhs[0]).(*ast.SelectorExpr); ok && info.ObjectOf(s2.Sel) == fv {
+						flag = fv
+					}
+				}
+			}
+		}
+		return true
+	})
+	if flag == nil {
+		undecidedf("%s.Next: first-call flag idiom not found", typeName)
+	}
+	n := 0
+	for _, fi := range p.funcsInPkg(pkg) {
+		if fi.Decl.Recv == nil || fi == next || fi.Decl.Body == nil {
+			continue
+		}
+		if nt := namedOf(fi.Obj.Type().(*types.Signature).Recv().Type()); nt == nil || nt.Obj().Name() != typeName {
+			continue
+		}
+		finfo := fi.Pkg.TypesInfo
+		var g *FCFG
+		for _, c := range callsIn(fi.Decl.Body) {
+			sel, ok := ast.Unparen(c.Fun).(*ast.SelectorExpr)
+			if !ok || sel.Sel.Name != "Seek" {
+				continue
+			}
+			n++
+			r.Fn(fi)
+			if g == nil {
+				g = buildCFG(finfo, fi.Decl.Body)
+			}
+			// a store to the flag dominates the Seek, or the Seek is guarded by flag != nil;
+			// the idiom `if r.F == nil { r.F = x }` counts as establishing it
+			ok2 := false
+			for _, st := range storesToField(finfo, fi.Decl.Body, typeName, flag.Name()) {
+				if g.DominatesNode(st.Stmt, c) && !isNilIdent(finfo, st.Rhs) {
+					ok2 = true
+				}
+				for _, anc := range enclosing(fi.Decl.Body, st.Stmt) {
+					if is, isIf := anc.(*ast.IfStmt); isIf && is.Else == nil {
+						if e, isEq, isNil := nilTest(finfo, is.Cond); isNil && isEq && isField(finfo, e, typeName, flag.Name()) && g.DominatesNode(is.Cond, c) && !isNilIdent(finfo, st.Rhs) {
+							ok2 = true
+						}
+					}
+				}
+			}
+			r.Ob(rule, fi.Name+"/"+flag.Name()+"-set-before-Seek", c.Pos(), ok2, "Next() steps the iterator only when "+flag.Name()+" != nil (its 'already positioned' flag); "+fi.Obj.Name()+" positions the iterator with Seek and must leave "+flag.Name()+" set, otherwise the following Next() returns the entry Seek landed on a second time (ids not strictly increasing)")
+		}
+	}
+	if n < 1 {
+		undecidedf("%s: no sibling method positions the iterator with Seek", typeName)
+	}
+}
+
+// ruleOpenedCollectionSwept (K1): segments opened into a local collection
+// (`coll[k], err = plugin.OpenUsing(..)`) are owned by that collection until an
+// entry is explicitly taken out of it (ownership moves by deleting the entry or
+// setting it nil).  The function must register a deferred sweep that closes
+// whatever is still in the collection, and the sweep must run on EVERY exit -
+// success included - because entries may legitimately remain (e.g. a segment
+// that was persisted but dropped from the root meanwhile).
+func ruleOpenedCollectionSwept(r *Report, rule string, pkg string) {
+	p := r.P
+	n := 0
+	for _, fi := range p.funcsInPkg(pkg) {
+		if fi.Decl.Body == nil {
+			continue
+		}
+		info := fi.Pkg.TypesInfo
+		var colls []types.Object
+		var sites []ast.Node
+		inspectNoLit(fi.Decl.Body, func(x ast.Node) bool {
+			as, ok := x.(*ast.AssignStmt)
+			if !ok || len(as.Rhs) != 1 || len(as.Lhs) < 1 {
+				return true
+			}
+			c, ok := as.Rhs[0].(*ast.CallExpr)
+			if !ok {
+				return true
+			}
+			nm := calleeShortName(info, c)
+			if nm != "OpenUsing" && nm != "Open" {
+				return true
+			}
+			ix, ok := ast.Unparen(as.Lhs[0]).(*ast.IndexExpr)
+			if !ok {
+				return true
+			}
+			o := objOf(info, ix.X)
+			if o == nil || !hasCloseMethod(info.TypeOf(ix)) {
+				return true
+			}
+			colls = append(colls, o)
+			sites = append(sites, as)
+			return true
+		})
+		for i, coll := range colls {
+			n++
+			r.Fn(fi)
+			g := buildCFG(info, fi.Decl.Body)
+			ok2, why := false, "no deferred closure ranges over "+coll.Name()+" closing its entries"
+			ast.Inspect(fi.Decl.Body, func(x ast.Node) bool {
+				ds, ok := x.(*ast.DeferStmt)
+				if !ok {
+					return true
+				}
+				fl, ok := ds.Call.Fun.(*ast.FuncLit)
+				if !ok {
+					return true
+				}
+				var sweep *ast.RangeStmt
+				ast.Inspect(fl.Body, func(y ast.Node) bool {
+					if rs, ok := y.(*ast.RangeStmt); ok && objOf(info, rs.X) == coll {
+						for _, c := range callsDeep(rs.Body) {
+							if sel, ok := ast.Unparen(c.Fun).(*ast.SelectorExpr); ok && sel.Sel.Name == "Close" {
+								sweep = rs
+							}
+						}
+					}
+					return true
+				})
+				if sweep == nil {
+					return true
+				}
+				if !g.DominatesNode(ds, sites[i]) {
+					why = "the deferred sweep is registered after the first entry is opened"
+					return true
+				}
+				// unconditional inside the closure: it is a top-level statement of the closure body and
+				// no return statement precedes it
+				top, early := false, false
+				for _, st := range fl.Body.List {
+					if st == ast.Stmt(sweep) {
+						top = true
+						break
+					}
+					ast.Inspect(st, func(z ast.Node) bool {
+						if _, isRet := z.(*ast.ReturnStmt); isRet {
+							early = true
+						}
+						return true
+					})
+				}
+				if top && !early {
+					ok2 = true
+				} else {
+					why = "the deferred sweep over " + coll.Name() + " is conditional (it is skipped on some exits, e.g. on success), so entries that were not taken over stay open: their file descriptors and mappings survive Close of the index"
+				}
+				return true
+			})
+			r.Ob(rule, fi.Name+"/"+coll.Name()+"-swept-on-every-exit", sites[i].Pos(), ok2, why)
+		}
+	}
+	if n < 1 {
+		undecidedf("no function opens segments into a local collection in %s", pkg)
+	}
+}
+
+// ruleNilGuardProtectsItsSubject: `if m != nil { ... }` over a local map exists
+// to make the body's use of m safe/meaningful.  A guard whose body never
+// mentions the guarded map but indexes ANOTHER map of the same type is a
+// copy-paste slip: the decision is taken on the wrong collection.
+func ruleNilGuardProtectsItsSubject(r *Report, rule string, pkgs ...string) {
+	p := r.P
+	n := 0
+	for _, pk := range pkgs {
+		for _, fi := range p.funcsInPkg(pk) {
+			if fi.Decl.Body == nil {
+				continue
+			}
+			info := fi.Pkg.TypesInfo
+			ast.Inspect(fi.Decl.Body, func(x ast.Node) bool {
+				is, ok := x.(*ast.IfStmt)
+				if !ok {
+					return true
+				}
+				e, isEq, isNil := nilTest(info, is.Cond)
+				if !isNil || isEq {
+					return true
+				}
+				subj := objOf(info, e)
+				if subj == nil {
+					return true
+				}
+				mt, ok := subj.Type().Underlying().(*types.Map)
+				if !ok {
+					return true
+				}
+				n++
+				used := readsVar(info, is.Body, subj)
+				other := ""
+				if !used {
+					ast.Inspect(is.Body, func(y ast.Node) bool {
+						if ix, ok := y.(*ast.IndexExpr); ok {
+							if o := objOf(info, ix.X); o != nil && o != subj && types.Identical(o.Type().Underlying(), mt) {
+								other = o.Name()
+							}
+						}
+						return true
+					})
+				}
+				r.Fn(fi)
+				r.Ob(rule, fi.Name+"/guard-"+subj.Name()+"-used-in-its-branch", is.Pos(), used || other == "",
+					"the branch is guarded by `"+exprStr(is.Cond)+"` but never uses "+subj.Name()+"; it indexes "+other+" (a different map of the same type) instead: the guard was copied from a sibling branch and decides on the wrong collection")
+				return true
+			})
+		}
+	}
+	if n < 2 {
+		undecidedf("nil-guard rule matched %d guards", n)
+	}
+}
